@@ -367,12 +367,12 @@ func writeEvidence(v *Verifier, vdir, prop, tier string, seed int, agg map[strin
 	assumptions := []string{
 		"64-bit integer + - * treated as mathematical (no wrap-around); <=32-bit arithmetic and all conversions wrap exactly",
 		"distinct symbolic pointers/slices reaching a function through parameters are assumed not to alias unless syntactically equal",
-		"append modelled as always allocating a fresh backing array",
+		"append modelled as always allocating a fresh backing array (aliasing created by appending to a re-sliced slice is not seen)",
 		"frame: every function under contract gets the obligations frame/ghost and frame/heap (pre-existing cells written only where a modifies clause allows; 'modifies heap.all' marks an entry point whose frame no caller may use); exempt from frame/heap: objects first obtained as results of contract-applied calls, pointer values havocked at a loop cut (assumed loop-allocated) and new targets of pointer fields a callee declared modified; 'modifies <map>' also covers the objects stored in that map",
 		"calls to log/fmt/metrics/time functions have no effect on heap or ghost state and do not panic",
 		"panic paths are analysed only in functions whose contract says nopanic; elsewhere run-time panic conditions are assumed not to occur",
-		"goroutine bodies are not executed in the spawner; sync primitives are atomic",
-		"floating-point values are opaque; a float -> integer conversion yields the truncated value wrapped into the target type like an integer narrowing (what amd64 does for |x| < 2^63; Go leaves out-of-range results to the implementation)",
+		"goroutine bodies are not executed in the spawner (every go statement of a function under contract must be declared by `spawns`: obligation frame/goroutines); sync primitives are atomic",
+		"floating-point values are opaque, except: an integer -> float64 conversion follows IEEE 754 binary64 (round to nearest, ties to even, |x| < 2^64) and converting that double back gives the rounded integer; a float -> integer conversion yields the truncated value wrapped into the target type like an integer narrowing (what amd64 does for |x| < 2^63; Go leaves out-of-range results to the implementation)",
 		"objects reached through references that existed before the call (slices, maps, channels behind a pointer parameter) are distinct from the objects the activation allocates itself",
 		"built-in models (assumed semantics): bytes.Buffer / gxbytes.Buffer as a byte string that only grows by writes; fmt.Sprintf(\"%v\", x) as an uninterpreted function of x (a string prints as itself); errors.Is / errors.New / pkg/errors wrappers; sync.Once, sync.Map as sequential objects; context.WithValue; reflect.ValueOf / Kind / Int / Uint / Float / Interface / DeepEqual as far as datasource.DeepEqual uses them (Kind is a function of the dynamic type, DeepEqual on two strings is string equality, otherwise uninterpreted); the used models are listed below",
 		"a Go map range hands out every key present when the range started exactly once, in an arbitrary order (ghost visited-set); string keys are indexed by an injective function",
